@@ -104,7 +104,8 @@ class VariantMatcher:
             for pattern in variant_patterns:
                 all_params_match = True
                 for matching_param in pattern.get_matching_parameters():
-                    req_bytes = matching_param.get_ident_service(variant).encode_request()
+                    # (the encoded request may be a bytearray, which cannot be used as key for the cache)
+                    req_bytes = bytes(matching_param.get_ident_service(variant).encode_request())
 
                     if self.use_cache and req_bytes in self.req_resp_cache:
                         resp_values = copy(self.req_resp_cache[req_bytes])
